@@ -22,14 +22,14 @@ func (c06) Assumptions() []string {
 }
 
 type c06scn struct {
-	place    [3]int // service i lives in 0 main, 1 inc1, 2 inc2
-	nesting  int    // 0 flat, 1 chain (main->inc1->inc2), 2 diamond handled separately
-	dirKind  [2]int // for inc1, inc2: 0 same dir, 1 sub-dir, 2 sibling dir
-	projDir  int    // 0 absent 1 relative 2 absolute (applies to inc1)
-	long     bool
-	envSrc   int // 0 none 1 own .env 2 one env_file 3 two env_files (applies to inc1)
-	parentV  bool
-	incV     bool
+	place   [3]int // service i lives in 0 main, 1 inc1, 2 inc2
+	nesting int    // 0 flat, 1 chain (main->inc1->inc2), 2 diamond handled separately
+	dirKind [2]int // for inc1, inc2: 0 same dir, 1 sub-dir, 2 sibling dir
+	projDir int    // 0 absent 1 relative 2 absolute (applies to inc1)
+	long    bool
+	envSrc  int // 0 none 1 own .env 2 one env_file 3 two env_files (applies to inc1)
+	parentV bool
+	incV    bool
 }
 
 func (s c06scn) id() string {
@@ -293,7 +293,7 @@ func c06special(c *core.Ctx) {
 	svc := func(n, img string) string { return fmt.Sprintf("  %s:\n    image: \"%s\"\n", n, img) }
 	cases := []sc{
 		{name: "siblings-disjoint-variable", files: map[string]string{
-			"compose.yaml": "include:\n  - ./one/compose.yaml\n  - ./two/compose.yaml\nservices:\n" + svc("m", "m"),
+			"compose.yaml":     "include:\n  - ./one/compose.yaml\n  - ./two/compose.yaml\nservices:\n" + svc("m", "m"),
 			"one/compose.yaml": "services:\n" + svc("one", "img:${ONLY_ONE}"), "one/.env": "ONLY_ONE=1\n",
 			"two/compose.yaml": "services:\n" + svc("two", "img:${ONLY_ONE}-${ONLY_TWO}"), "two/.env": "ONLY_TWO=2\n"},
 			check: func(im map[string]string) string {
@@ -303,7 +303,7 @@ func c06special(c *core.Ctx) {
 				return ""
 			}},
 		{name: "siblings-clashing-variable", files: map[string]string{
-			"compose.yaml": "include:\n  - ./one/compose.yaml\n  - ./two/compose.yaml\nservices:\n" + svc("m", "m"),
+			"compose.yaml":     "include:\n  - ./one/compose.yaml\n  - ./two/compose.yaml\nservices:\n" + svc("m", "m"),
 			"one/compose.yaml": "services:\n" + svc("one", "img:${V}"), "one/.env": "V=one\n",
 			"two/compose.yaml": "services:\n" + svc("two", "img:${V}"), "two/.env": "V=two\n"},
 			check: func(im map[string]string) string {
@@ -314,7 +314,7 @@ func c06special(c *core.Ctx) {
 			}},
 		{name: "siblings-envfile-then-dotenv", files: map[string]string{
 			"compose.yaml": "include:\n  - path: ./one/compose.yaml\n    env_file: ./one.env\n  - ./two/compose.yaml\nservices:\n" + svc("m", "img:${V}"),
-			"one.env": "V=one\n", "one/compose.yaml": "services:\n" + svc("one", "img:${V}"),
+			"one.env":      "V=one\n", "one/compose.yaml": "services:\n" + svc("one", "img:${V}"),
 			"two/compose.yaml": "services:\n" + svc("two", "img:${V}")},
 			check: func(im map[string]string) string {
 				if im["one"] != "img:one" || im["two"] != "img:" || im["m"] != "img:" {
@@ -347,7 +347,7 @@ func c06special(c *core.Ctx) {
 			"compose.yaml": "include:\n  - ./inc.yaml\nservices:\n" + svc("m", "m") + "configs:\n  c: {content: a}\n", "inc.yaml": "services:\n" + svc("x", "x") + "configs:\n  c: {content: b}\n"}},
 		{name: "identical-through-two-routes", files: map[string]string{
 			"compose.yaml": "include:\n  - ./i1.yaml\n  - ./i2.yaml\nservices:\n" + svc("m", "m"),
-			"i1.yaml": "include:\n  - ./shared.yaml\nservices:\n" + svc("one", "one"), "i2.yaml": "include:\n  - ./shared.yaml\nservices:\n" + svc("two", "two"),
+			"i1.yaml":      "include:\n  - ./shared.yaml\nservices:\n" + svc("one", "one"), "i2.yaml": "include:\n  - ./shared.yaml\nservices:\n" + svc("two", "two"),
 			"shared.yaml": "services:\n" + svc("shared", "shared") + "networks:\n  sn: {}\n"},
 			check: func(im map[string]string) string {
 				if im["shared"] != "shared" || im["one"] != "one" || im["two"] != "two" {
